@@ -140,7 +140,7 @@ class Material(data_input.DataInputAbstract, Numbered_MCNP_Object):
         """
         if self._problem:
             for cell in self._problem.cells:
-                if cell.material == self:
+                if cell.material is self:
                     yield cell
 
     def format_for_mcnp_input(self, mcnp_version):
